@@ -577,6 +577,25 @@ ElemNumber::getCountString(
                     theResult);
         }
     }
+    else if (0 == m_countMatchPattern &&
+             sourceNode->getNodeType() == XalanNode::ATTRIBUTE_NODE &&
+             DOMServices::isNamespaceDeclaration(static_cast<const XalanAttr&>(*sourceNode)) == true)
+    {
+        // The current node is a namespace node and there is no count attribute.  The
+        // default count pattern matches the nodes of the same type and expanded name,
+        // but no match pattern can select a namespace node (the attempt to build one,
+        // @xmlns:prefix, failed with "The prefix 'xmlns' is not declared").  Namespace
+        // nodes are on none of the axes that are searched and have no siblings, so
+        // whatever the level and the from pattern, the only node counted is the
+        // current node itself: the number list is (1).
+        const CountType   theNumber = 1;
+
+        formatNumberList(
+                executionContext,
+                &theNumber,
+                1,
+                theResult);
+    }
     else
     {
         CountersTable&  ctable = executionContext.getCountersTable();
